@@ -12,7 +12,7 @@ EXPLANATION = ("frame argument: BlockHandler has exactly the config and one map;
                "the method code, the Uri-Path segments converted per element (no joining call on that flow) and the "
                "source endpoint, with derived Ord/PartialOrd/Eq/PartialEq over all three fields; the function copying "
                "the cached reply into the live one leaves message id and token untouched and copies only version/type "
-               "bits, code and options")
+               "bits, code and options; the key's path vector is not edited (&mut) between get_path_as_vec and the key")
 NOT_DECIDED = "Not decided: transcript equality between interleaved and solo runs (relies on the map contract and C20.1)."
 ASSUMPTIONS = ["LruCache / BTreeMap keep entries of different keys apart (map contract)"]
 
